@@ -1,5 +1,6 @@
 """C12 — no hidden state: history-independent results, global modes restored."""
 
+import logging
 import os
 import pickle
 import sys
@@ -9,7 +10,7 @@ import xml.dom
 from hypothesis import strategies as st
 
 import cssutils
-from vlib.runner import HarnessAbort, Sub, Violation, frame_sig
+from vlib.runner import VERIF, HarnessAbort, Sub, Violation, frame_sig
 
 PROPERTY = 'C12'
 RULE = (
@@ -53,6 +54,12 @@ EDITS_BAD = ['mediaText:print print', 'insertRule:@import "x";:1', 'insertRule:a
 EDITS_OK = ['insertRule:b{top:0}:0', 'selectorText:x y', 'setProperty:color:blue', 'removeProperty:color', 'encoding:ascii']
 
 
+CAPTURE_DOCS = ['<html><head><style type="text/css">a { top: 0 }</style><link rel="stylesheet" type="text/css" href="x.css"></head></html>',
+                '<html><head><style type="text/css">b { left: 0 }</style></head><style type="text/css">unfinished {',
+                '<html><head><title>none</title></head><body><p>no sheet</p></body></html>',
+                '<html><head><link rel="stylesheet" type="text/css" href="x.css" media="print"><style type="text/css"><!-- c { top: 0 } --></style><script>if (a<b) {}']
+
+
 class FetchErr(Exception):
     pass
 
@@ -77,6 +84,7 @@ op = st.one_of(
               st.sampled_from([None, 'utf-8', 'x-none', 'ascii'])),
     st.tuples(st.just('bytes-style'), st.sampled_from(['ff', 'c3', '636f6e74656e743a2022e422', 'e9', '746f703a2030']),
               st.sampled_from(['utf-8', 'x-none', 'ascii', 'utf-16']), st.booleans()),
+    st.tuples(st.just('capture'), st.lists(st.integers(0, 3), min_size=2, max_size=3)),
     st.tuples(st.just('fetcher'), st.sampled_from(['raise', 'garbage', 'cycle']), st.booleans()),
     st.tuples(st.just('parseFile-missing'), st.booleans()),
     st.tuples(st.just('edit'), st.sampled_from(EDITS_BAD + EDITS_OK)),
@@ -161,6 +169,30 @@ def run_op(o, events):
             events.append('exc')
             if not isinstance(exc, (UnicodeDecodeError, LookupError, xml.dom.DOMException)):
                 raise Leak(f'crash:bytes-style:{frame_sig(exc)}|{data!r}: {exc!r}')
+    elif kind == 'capture':
+        # one CSSCapture object used for several documents: the last answer is that of a fresh object
+        import contextlib
+        import io
+        import shutil
+        from cssutils.script import CSSCapture
+
+        work = tempfile.mkdtemp(prefix='c12-', dir=os.path.join(VERIF, '.work'))
+        try:
+            for i, doc in enumerate(CAPTURE_DOCS):
+                with open(os.path.join(work, 'd%d.html' % i), 'w') as f:
+                    f.write(doc)
+            with open(os.path.join(work, 'x.css'), 'w') as f:
+                f.write('x { color: red }')
+            urls = ['file://' + os.path.join(work, 'd%d.html' % i) for i in o[1]]
+            with contextlib.redirect_stdout(io.StringIO()):
+                reused = CSSCapture(defaultloglevel=logging.FATAL)
+                for u in urls:
+                    got = [sh.cssText for sh in reused.capture(u)]
+                fresh = [sh.cssText for sh in CSSCapture(defaultloglevel=logging.FATAL).capture(urls[-1])]
+        finally:
+            shutil.rmtree(work, ignore_errors=True)
+        if got != fresh:
+            raise Leak(f'reuse:capture-object-gives-different-results|documents {o[1]}: the reused CSSCapture reports {got!r} for the last one, a fresh one {fresh!r}'[:900])
     elif kind == 'fetcher':
         f = {'raise': fetch_raise, 'garbage': fetch_garbage, 'cycle': fetch_cycle}[o[1]]
         p = cssutils.CSSParser(fetcher=f, raiseExceptions=o[2])
@@ -261,6 +293,14 @@ def run_op(o, events):
 def battery():
     out = []
     mode = cssutils.log.raiseExceptions
+    # parts serialised on their own, before anything else is serialised here: what they give must not depend on what the
+    # history serialised
+    try:
+        sh = cssutils.parseString('a.x { top: 0 } a { left: 0 } @media print { a.x#y { right: 0 } a { top: 0 } }')
+        out.append(('parts', sh.cssRules[0].cssText, sh.cssRules[2].cssRules[0].cssText, sh.cssRules[2].cssText, sh.cssRules[1].cssText,
+                    sh.cssRules[0].style.cssText, sh.cssRules[0].selectorText))
+    except Exception as e:  # noqa: BLE001
+        out.append(('parts', 'EXC', type(e).__name__, str(e)[:200]))
     for t in TEXTS:
         try:
             s = cssutils.CSSParser(fetcher=lambda u: (None, '')).parseString(t)
